@@ -1,7 +1,7 @@
 (* Property C13 — grouping returns the connected components of the similarity graph. *)
 From Coq Require Import List Arith Permutation Relations.
 From Coq Require Import ZArith QArith.
-From SE Require Import Base.Res Gen.Prelude Gen.Source Gen.SrcGroup Misc.Components Misc.ComponentsProofs.
+From SE Require Import Base.Res Gen.Prelude Gen.Source Gen.SrcGroup Misc.Components Misc.ComponentsProofs Misc.GroupLoop.
 Local Open Scope nat_scope.
 Import ListNotations.
 
@@ -125,6 +125,26 @@ Theorem C13_src_with_model_components : forall cmp evs,
   Source.group_sound_events cmp cc evs = Ok (map (map (ev evs)) (group_by_loop (labels n (edges_of n (rel_on cmp evs))))).
 Proof. exact src_group_sound_events_model. Qed.
 Print Assumptions C13_src_with_model_components.
+
+(* the grouping written as the loop is the declarative grouping, for every list of labels *)
+Theorem C13_loop_is_grouping : forall labs, group_by_loop labs = group_by labs.
+Proof. exact group_by_loop_eq. Qed.
+Print Assumptions C13_loop_is_grouping.
+
+(* hence, given the component labelling, the code as written returns the model's group_sound_events — of which
+   C13_partition, C13_order_kept and C13_same_group_iff_connected speak — with the events in place of their positions *)
+Theorem C13_src_is_model : forall cmp evs,
+  let n := length evs in
+  let cc := fun m : coo => (0, labels (Z.to_nat (coo_rows m)) (edges_of n (rel_on cmp evs))) in
+  Source.group_sound_events cmp cc evs = Ok (map (map (ev evs)) (Components.group_sound_events n (rel_on cmp evs))).
+Proof. exact src_group_sound_events_is_model. Qed.
+Print Assumptions C13_src_is_model.
+
+Theorem C13_src_grouping_declarative : forall cmp cc evs,
+  length (snd (cc (adjacency cmp evs))) = length evs ->
+  Source.group_sound_events cmp cc evs = Ok (map (map (ev evs)) (group_by (snd (cc (adjacency cmp evs))))).
+Proof. exact src_grouping_declarative. Qed.
+Print Assumptions C13_src_grouping_declarative.
 
 Example C13_src_group_ex :
   Source.group_sound_events (fun a b => Z.eqb (Z.abs (a - b)) 1) (fun m => (2, [0; 1; 0; 1; 0])) [10; 20; 11; 21; 12]%Z
